@@ -3,6 +3,7 @@ package checks
 import (
 	"context"
 	"encoding/hex"
+	"encoding/json"
 	"fmt"
 	"sync"
 
@@ -252,3 +253,17 @@ func fileAcct() *config.Accounter {
 }
 
 var _ tq.Handler = (*handlers.Start)(nil)
+
+// deepCopyCfg copies a configuration through its JSON form.
+func deepCopyCfg(c config.ServerConfig) config.ServerConfig {
+	b, err := json.Marshal(c)
+	if err != nil {
+		panic(err)
+	}
+	var out config.ServerConfig
+	if err := json.Unmarshal(b, &out); err != nil {
+		panic(err)
+	}
+	return out
+}
+
